@@ -54,8 +54,14 @@ Theorem line_figures_are_ideal cr c cur rates l :
 Proof. exact (calc_line_refines cr c cur rates l). Qed.
 Print Assumptions line_figures_are_ideal.
 
+(* a rate x quantity charge keeps every decimal of the product (nothing is rounded there) *)
+Theorem rate_times_quantity_is_exact r q : rate_times r q = mkA (val r * val q) (exp r + exp q).
+Proof. exact (rate_times_exact r q). Qed.
+Print Assumptions rate_times_quantity_is_exact.
+
 (* 3 x 0.3333 less 10% plus 0.125; a line priced by its breakdown with a 3-per-unit charge on 0.5
-   units; 5% document discount, 1.00 document charge; 21% tax; 50% advance; 50% due *)
+   units (1.50, every decimal of rate x quantity kept); 5% document discount, 1.00 document charge;
+   21% tax; 50% advance; 50% due *)
 Definition c01_rich_doc : doc :=
   let vat := mkCombo [Byte.x56] [] [] (Some (mkA 21 2)) None false [] in
   mkDoc 2 false [] 1
@@ -68,9 +74,9 @@ Definition c01_rich_doc : doc :=
 
 Example calc_refines_ideal_applies :
   exists t it, calculate c01_rich_doc = Totals t /\ ideal c01_rich_doc = Some it /\
-    t_sum t = mkA 1709 2 /\ t_discount t = Some (mkA 85 2) /\ t_charge t = Some (mkA 100 2) /\
-    t_total t = mkA 1724 2 /\ t_tax t = mkA 341 2 /\ t_twt t = mkA 2065 2 /\ t_due t = Some (mkA 1033 2) /\
-    i_total it == 1724 # 100 /\ i_tax it == 341 # 100 /\ i_twt it == 2065 # 100.
+    t_sum t = mkA 1659 2 /\ t_discount t = Some (mkA 83 2) /\ t_charge t = Some (mkA 100 2) /\
+    t_total t = mkA 1677 2 /\ t_tax t = mkA 331 2 /\ t_twt t = mkA 2008 2 /\ t_due t = Some (mkA 1004 2) /\
+    i_total it == 1677 # 100 /\ i_tax it == 331 # 100 /\ i_twt it == 2008 # 100.
 Proof.
   eexists. eexists. split; [vm_compute; reflexivity|]. split; [vm_compute; reflexivity|].
   repeat split.
@@ -81,21 +87,19 @@ Qed.
 (* ------------------------------------------------------------------------------------------ *)
 (* far_from_exact d: 'precise' rule, at most one line, and the presented total is at least one
    full minor unit away from the unrounded exact value (exact d = the specification with no
-   rounding at all).  Three independent causes, each replayed against the Go code:
-   rate x quantity charges are rounded at the decimals of the RATE (12.00 presented, 11.50 exact);
+   rounding at all).  Two independent causes, each replayed against the Go code:
    a price converted by an exchange rate is rounded to the currency's decimals before it is
-   multiplied by the quantity (920.00 / 915.00); the price of a line with a breakdown is rounded
-   to the decimals of the sub-line prices (10.00 / 5.00). *)
+   multiplied by the quantity (920.00 presented, 915.00 exact); the price of a line with a
+   breakdown is rounded to the decimals of the sub-line prices (10.00 / 5.00).
+   (A third cause found here - rate x quantity charges rounded at the decimals of the RATE,
+   12.00 / 11.50 - was a defect and is repaired: bill/line_calculate.go now keeps every decimal of
+   rate x quantity, Calc.rate_times, and such charges are inside the bound below.) *)
 Theorem precise_error_bound_unrestricted_refuted :
   exists d, d_currency_rule d = false /\ (length (d_lines d) <= 1)%nat /\
     exists t x, calculate d = Totals t /\ exact d = Some x /\
       unitQ (d_c d) <= Qabs (toQ (t_total t) - i_total x).
 Proof. exact IdealBoundProofs.precise_error_bound_unrestricted_refuted. Qed.
 Print Assumptions precise_error_bound_unrestricted_refuted.
-
-Theorem rate_charge_rounded_at_rate_decimals_refuted : far_from_exact w_rate_charge.
-Proof. exact w_rate_charge_far. Qed.
-Print Assumptions rate_charge_rounded_at_rate_decimals_refuted.
 
 Theorem converted_price_rounded_before_multiplying_refuted : far_from_exact w_exchange.
 Proof. exact w_exchange_far. Qed.
@@ -143,12 +147,13 @@ Print Assumptions presentation_rounding_error.
 (* is a full minor unit away from the unrounded exact value                                     *)
 (* ------------------------------------------------------------------------------------------ *)
 (* `exact d` is the specification Calc/Ideal.v with NO rounding anywhere.
-   The unrestricted statement is false (precise_error_bound_unrestricted_refuted above: rate x
-   quantity charges, exchange-rate conversions, breakdown prices).  It holds on `simple_doc d`:
+   The unrestricted statement is false (precise_error_bound_unrestricted_refuted above:
+   exchange-rate conversions, breakdown prices).  It holds on `simple_doc d`:
      'precise' rule; at least one line; no line has a breakdown; every item is priced in the
      document's currency or has an alternative price in it (no exchange-rate conversion); line
-     discounts / charges are fixed amounts or percentages (with or without base) of at most 100%
-     either way, not rate x quantity; document discounts / charges likewise; every tax
+     discounts / charges are fixed amounts, rate x quantity charges, or percentages (with or
+     without base) of at most 100% either way; document discounts / charges fixed or such
+     percentages; every tax
      percentage and surcharge lies between 0% and 100%.  Quantities, prices, amounts and bases are
      arbitrary (any sign, any decimals); taxes may be included in prices, retained, carry
      surcharges; any currency precision c.
@@ -220,14 +225,15 @@ Theorem ideal_close_to_exact d x : simple_doc d -> ideal d = Some x ->
 Proof. exact (spec_close d x). Qed.
 Print Assumptions ideal_close_to_exact.
 
-(* a line with a 10% discount and a fixed charge, a second line, a 5% document discount, a fixed
+(* a line with a 10% discount and a charge of 3 per unit on 0.5 units, a second line, a 5% document discount, a fixed
    document charge, 21% tax on everything: largest budget b_due = 77 < 100 (an advance would add
    b_twt + 1 = 76 to the budget of the amount due) *)
 Definition c01_simple_doc : doc :=
   let vat := mkCombo [Byte.x56] [] [] (Some (mkA 21 2)) None false [] in
   mkDoc 2 false [] 1
    [mkLine (mkA 3 0) (mkItem (mkA 3333 4) None []) []
-           [mkLdc (mkA 0 0) (Some (mkA 10 2)) None None None] [mkLdc (mkA 125 3) None None None None] [vat];
+           [mkLdc (mkA 0 0) (Some (mkA 10 2)) None None None]
+           [mkLdc (mkA 0 0) None None (Some (mkA 3 0)) (Some (mkA 5 1))] [vat];
     mkLine (mkA 7 0) (mkItem (mkA 1005 3) None []) [] [] [] [vat]]
    [mkDdc (mkA 0 0) (Some (mkA 5 2)) None [vat]] [mkDdc (mkA 100 2) None None []] []
    [] [] None.
@@ -235,8 +241,8 @@ Definition c01_simple_doc : doc :=
 Example precise_error_bound_applies :
   simple_doc c01_simple_doc /\ b_payable c01_simple_doc == 76 /\ b_due c01_simple_doc < 100 /\
   exists t y, calculate c01_simple_doc = Totals t /\ exact c01_simple_doc = Some y /\
-    t_total t = mkA 866 2 /\ i_total y == 86569145 # 10000000 /\
-    t_twt t = mkA 1026 2 /\ i_twt y == 10264866545 # 1000000000.
+    t_total t = mkA 996 2 /\ i_total y == 19926329 # 2000000 /\
+    t_twt t = mkA 1185 2 /\ i_twt y == 2369085809 # 200000000.
 Proof.
   split; [|split; [vm_compute; reflexivity|split; [vm_compute; reflexivity|]]].
   - unfold simple_doc, c01_simple_doc, simple_line, simple_row, simple_drow, unconverted, combo_ok, pct_ok, rate_ok.
